@@ -256,6 +256,24 @@ def _bad(o):
     return None
 
 
+def _counters(o):
+    """all (polls, readies, yielded) triples in an async or sync output"""
+    out = []
+    if isinstance(o, list):
+        if o and isinstance(o[0], bytes) and o[0] in (b'poll', b'fire') and len(o) >= 4:
+            out.append((o[-3], o[-2], o[-1]))
+        elif o and isinstance(o[0], bytes) and o[0] == b'req' and len(o) == 5:
+            out.append((o[2], o[2], o[3]))
+        else:
+            for x in o:
+                out.extend(_counters(x))
+    return out
+
+
+def classify(case, why):
+    return 'D18' if why.startswith('D18:') else None
+
+
 def _expect_results(depths, m):
     return [[b'some', d] if d < m else b'none' for d in depths]
 
@@ -272,7 +290,13 @@ def oracle(case, out):
     mode = c[1]
     reqs = [r[1:] for r in c[3]]
     if any(len(r) == 0 for r in reqs):
-        return None  # empty key list (D18) is not part of the generated space
+        # D18 (DESIGN.md section 6): a batch request with an EMPTY key list needs no bundle but pulls the first one.
+        # Not part of the generated space (recorded, not alarmed); a case with an empty request is judged on this alone.
+        flat = sexp.dumps(o)
+        pulled = [x for x in _counters(o) if x[2] > 0]
+        if all(len(r) == 0 for r in reqs) and pulled:
+            return 'D18: requests with an empty key list only, yet %d bundle(s) were generated' % max(x[2] for x in pulled)
+        return None
     script = [s == b'r' for s in c[4]]
     m = sum(script)
     need = [min(max(r) + 1, m) for r in reqs]          # bundles request c has to look at
